@@ -108,6 +108,8 @@ def _record(job):
             init = d.contents()
             valid0 = d.valid()
             for a in ops:
+                if "adapt" in a:
+                    a = adapt_op(a, events[-1]["store"] if events else init)
                 if rec is not None:
                     rec.events = []
                     before = rec.db_bytes()
@@ -143,6 +145,116 @@ def _record(job):
     return out
 
 
+def _record_fault(job):
+    """job = (id, auto_index, ops, j, k, after, extra point, read ops)
+    Re-run ops[:j], then ops[j] with an OSError injected at its k-th I/O call; observe the live
+    object, one more insert, close, and the file."""
+    tid, ai, ops, j, k, after, extra, reads = job
+    tf, th = _W["tf"], _W["th"]
+    d0 = tempfile.mkdtemp(prefix="f%d-" % os.getpid(), dir=_W["scratch"])
+    path = os.path.join(d0, "db.csv")
+    tmpdir = os.path.join(d0, "tmp")
+    os.mkdir(tmpdir)
+    saved_tmp = tempfile.tempdir
+    d = None
+    try:
+        tempfile.tempdir = tmpdir
+        with ioproxy.Installed(tf.storages, path) as rec:
+            d = driver.Db(tf, th, "csv", bool(ai), path=path, ntk=3, nfk=3)
+            events = []
+            init = d.contents()
+            valid0 = d.valid()
+            for a in ops[:j]:
+                exc, res = d.execute(a)
+                store = d.contents()
+                events.append({"a": a, "exc": exc, "res": res, "store": store, "valid": d.valid(),
+                               "ix": {"n": len(store), "q": [], "live": [], "fresh": []}})
+            a = ops[j]
+            rec.events = []
+            rec.fault_at = rec.ncalls + k
+            rec.fault_after = bool(after)
+            oserr = 0
+            try:
+                res = driver.coerce(a["op"], d._run(a))
+                exc = ""
+            except BaseException as e:  # noqa
+                exc = type(e).__name__
+                oserr = 1 if isinstance(e, OSError) else 0
+                res = 0
+            injected = any(e.get("fault") for e in rec.events)
+            rec.fault_at = None
+            fault = {"oserr": oserr, "injected": 1 if injected else 0,
+                     "at": next((e["call"] + ":" + e["f"] for e in rec.events if e.get("fault")), "")}
+            # the live object's own storage
+            try:
+                scan = [d.abs_point(p) for p in list(iter(d.db))]
+                fault["scan"], fault["scan_raised"] = scan, 0
+            except BaseException:
+                fault["scan"], fault["scan_raised"] = [], 1
+            rr = []
+            for ra in reads:
+                e2, r2 = d.execute(ra)
+                rr.append({"a": ra, "exc": e2, "res": r2})
+            fault["reads"] = rr
+            e3, r3 = d.execute({"op": "insert", "p": extra, "m": -1, "compact": 0})
+            fault["ins_ok"] = 0 if e3 else 1
+            fault["extra"] = extra
+            try:
+                d.db.close()
+            except BaseException:
+                pass
+            rec.enabled = False
+            data = rec.db_bytes() or b""
+            fault["final"] = d.decode_bytes(data)
+            store = d.contents()
+            events.append({"a": a, "exc": exc, "res": res, "store": store, "valid": 0, "nostore": 1,
+                           "ix": {"n": 0, "q": [], "live": [], "fresh": []}, "fault": fault})
+    finally:
+        tempfile.tempdir = saved_tmp
+        if d is not None:
+            d.close()
+        shutil.rmtree(d0, ignore_errors=True)
+    return {"id": tid, "kind": "csv", "auto_index": ai, "init": init, "valid0": valid0, "events": events}
+
+
+def record_faults(jobs, nproc=16):
+    scratch = tlc.mkscratch("flt-")
+    try:
+        with mp.Pool(nproc, initializer=_init, initargs=(common.REPO, scratch)) as pool:
+            return pool.map(_record_fault, jobs, chunksize=max(1, len(jobs) // (nproc * 8)))
+    finally:
+        shutil.rmtree(scratch, ignore_errors=True)
+
+
+def adapt_op(a, store):
+    """Resolve an adaptive operation against the contents stored right now (see gen.Gen.adapt)."""
+    if "adapt" not in a:
+        return a
+    a = dict(a)
+    r = a.pop("adapt")
+    pts = [p for p in store if p["t"] >= 0]
+    if not pts:
+        return a
+    p = pts[r % len(pts)]
+    r //= 97
+    def atom(k, key, op, v):
+        return {"k": k, "key": key, "key2": 0, "mf": 0, "op": op, "v": v, "tf": 0}
+    cands = [atom("time", 0, ["eq", "le", "ge", "lt", "gt", "ne"][r % 6], p["t"]), atom("meas", 0, ["eq", "ne"][r % 2], p["m"])]
+    for i, v in enumerate(p["tg"]):
+        if v != -2:
+            cands.append(atom("tag", i + 1, ["eq", "ne", "exists"][r % 3], v))
+    for i, v in enumerate(p["fd"]):
+        if v != -2:
+            cands.append(atom("field", i + 1, ["eq", "ge", "exists", "le"][r % 4] if v >= 0 else "eq", v))
+    q = cands[(r // 7) % len(cands)]
+    if (r // 50) % 4 == 0:
+        q = {"k": "not", "a": q}
+    elif (r // 50) % 4 == 1 and "q" in a:
+        q = {"k": "and", "a": q, "b": a["q"]} if (r // 200) % 2 else {"k": "or", "a": q, "b": a["q"]}
+    a["q"] = q
+    return a
+
+
 def _leftovers(tmpdir, dbdir):
     return sorted(os.listdir(tmpdir)) + sorted(f for f in os.listdir(dbdir) if f not in ("db.csv", "tmp"))
 
@@ -174,7 +286,8 @@ def io_obs(d, rec, before, a, tmpdir, dbdir, tmp_before):
         left = [f for f in _leftovers(tmpdir, dbdir) if f not in tmp_before]
         return {"snaps": snaps, "file": d.decode_bytes(after or b""), "reopened": d.reopened_contents(),
                 "same": 1 if after == before else 0, "tmp": len(left), "calls": calls, "ncalls": len(rec.events),
-                "snap_calls": snap_calls}
+                "snap_calls": snap_calls,
+                "counted": [e["call"] + ":" + e["f"] for e in rec.events if e.get("counted", True)]}
     finally:
         rec.enabled = was
 
